@@ -1,6 +1,7 @@
 """C20 — state vectors are physically self-consistent with the TLE's orbit."""
 import datetime as dt
 import math
+import sys
 
 import numpy as np
 
@@ -722,11 +723,15 @@ def replay(ctx, case):
         if res is None:
             print("the instant is refused (decay)")
             return 0
+        unlisted = []
         for (kind, obs, req, site) in res[0]:
-            print(kind, "observed", obs, "required", req)
+            k = lib.known_match(sys.modules[__name__], {"kind": kind, "case": dict(inp, model_low_km=float(low_km))})
+            print(("KNOWN-FINDING %s: " % k["id"]) if k else "", kind, "observed", obs, "required", req)
+            if k is None:
+                unlisted.append(kind)
         print(res[1])
-        print("violated" if res[0] else "holds")
-        return 1 if res[0] else 0
+        print("violated" if unlisted else "holds")
+        return 1 if unlisted else 0
     if "minutes" in inp:
         t = o.tle.epoch + np.timedelta64(int(round(inp["minutes"] * 60e6)), "us")
         p, v = o.get_position(t, normalize=False)
@@ -736,8 +741,21 @@ def replay(ctx, case):
         print("v", v, "dp/dt", (p1 - p0) / 2)
         speed = float(np.linalg.norm(v))
         r = float(np.linalg.norm(p))
-        bad = float(np.linalg.norm((p1 - p0) / 2.0 - v)) / speed > 0.0015
-        if inp.get("array_times"):
+        # the same readings and the same known findings as the oracle (a replay fails only for what the check would report)
+        us_ = int(round(inp["minutes"] * 60e6))
+        ratio_, low_km_ = None, inp.get("model_low_km")
+        try:
+            sec_ = _model_secular(ctx.driver(), o.tle, [us_])
+            if us_ in sec_ and all(math.isfinite(x) for x in sec_[us_][:2]) and sec_[us_][0] > 0:
+                ratio_, low_km_ = sec_[us_][0], sec_[us_][2]
+        except Exception:  # noqa
+            pass
+        vkind = "velocity_vs_derivative_near_decay" if (low_km_ is not None and low_km_ < KARMAN_KM) else "velocity_vs_derivative"
+        listed = lib.known_match(sys.modules[__name__], {"kind": vkind, "case": dict(inp, model_low_km=low_km_)}) is not None
+        bad = float(np.linalg.norm((p1 - p0) / 2.0 - v)) / speed > 0.0015 and not listed
+        if listed:
+            print("velocity clause: this input is a listed known finding")
+        if inp.get("array_times") and not listed:
             hq = inp["h_us"]
             arr3 = np.array([t - np.timedelta64(hq, "us"), t, t + np.timedelta64(hq, "us")])
             pa, va = o.get_position(arr3, normalize=False)
@@ -751,7 +769,10 @@ def replay(ctx, case):
         hvec = np.cross(p, v)
         inc = math.degrees(math.acos(max(-1.0, min(1.0, float(hvec[2] / np.linalg.norm(hvec))))))
         bad = bad or abs(inc - float(inp["line2"][8:16])) > 0.05
-        bad = bad or abs((speed ** 2 / 2 - MU / r) - (-MU / (2 * a_km))) / abs(MU / (2 * a_km)) > 0.01
+        e_now = speed ** 2 / 2 - MU / r
+        de0 = abs(e_now + MU / (2 * a_km)) / abs(MU / (2 * a_km))
+        de_t = abs(e_now + MU / (2 * a_km * ratio_)) / abs(MU / (2 * a_km * ratio_)) if ratio_ else float("inf")
+        bad = bad or (de0 > 0.01 and de_t > 0.01)
         print("violated" if bad else "holds")
         return 1 if bad else 0
     if inp.get("after"):
